@@ -195,6 +195,9 @@ class H2Protocol:
             stream_ids = list(self.streams.keys())
             for stream_id in stream_ids:
                 await self._close_stream(stream_id)
+            for stream_buffer in list(self.stream_buffers.values()):
+                # Release any application send blocked on flow control
+                await stream_buffer.close()
             await self.has_data.set()
 
     async def stream_send(self, event: StreamEvent) -> None:
